@@ -312,6 +312,14 @@ def main(chk):
     eps = [compact(a.value) for a in ast.walk(solve) if isinstance(a, ast.Assign) and U(a.targets[0]) == 'self._epsilon']
     chk.decide(eps == ['EPSILON*self.tf', 'EPSILON*self.tf*self.count'], 'loop-guard', 'epsilon', node=solve, file=SOL, func='Solver.solve',
                detail_bad='epsilon assignments %s' % eps, detail_ok=str(eps))
+    # the step the loop advances by is positive: the integrator reports "no usable constraint" (None -> the fixed step) rather than a zero or negative step,
+    # with which t never reaches tf (rules shared with C19)
+    import importlib.util
+    spec19 = importlib.util.spec_from_file_location('c19mod', os.path.join(os.path.dirname(os.path.abspath(__file__)), 'c19.py'))
+    c19 = importlib.util.module_from_spec(spec19)
+    spec19.loader.exec_module(c19)
+    c19.rule_provenance(chk, M.py(c19.INT))
+    c19.rule_fallback(chk)
     # the requested output times are kept as given: what is stored must not depend on the final time known when they are set (set_final_time may raise it later)
     cls_ = M.find_class(t, 'Solver')
     writers = []
